@@ -286,3 +286,59 @@ def loop_locals_used_after(func_node) -> List[Tuple[str, ast.For, ast.stmt]]:
     a = func_node.args
     block(func_node.body, {x.arg for x in a.posonlyargs + a.args + a.kwonlyargs})
     return out
+
+
+def inline_statement_calls(p: Program, f: Function, depth: int = 2) -> ast.AST:
+    """Copy of f's syntax tree in which every *statement* call `helper(a, b)` of a function of the same package whose body
+    returns nothing is replaced by that helper's body (parameters substituted by the argument expressions, helper locals
+    suffixed).  Rules about the order of effects inside a function then see through helper extraction."""
+    import copy
+
+    def subst_params(body: List[ast.stmt], mapping: Dict[str, ast.expr], suffix: str) -> List[ast.stmt]:
+        locals_ = set()
+        for st in body:
+            for n in ast.walk(st):
+                if isinstance(n, ast.Name) and isinstance(n.ctx, ast.Store):
+                    locals_.add(n.id)
+
+        class R(ast.NodeTransformer):
+            def visit_Name(self, n):
+                if n.id in mapping and isinstance(n.ctx, ast.Load):
+                    return copy.deepcopy(mapping[n.id])
+                if n.id in locals_ and n.id not in mapping:
+                    return ast.copy_location(ast.Name(id=n.id + suffix, ctx=n.ctx), n)
+                return n
+        return [ast.fix_missing_locations(R().visit(copy.deepcopy(st))) for st in body]
+
+    counter = [0]
+
+    def expand(stmts: List[ast.stmt], module, d: int) -> List[ast.stmt]:
+        out = []
+        for st in stmts:
+            if d > 0 and isinstance(st, ast.Expr) and isinstance(st.value, ast.Call) and isinstance(st.value.func, ast.Name) \
+                    and not st.value.keywords:
+                callee = p.resolve_name(module, st.value.func.id)
+                if isinstance(callee, Function) and isinstance(callee.node, ast.FunctionDef) \
+                        and len(callee.params) == len(st.value.args) and not callee.node.args.vararg and not callee.node.args.kwarg \
+                        and not any(isinstance(n, ast.Return) and n.value is not None for n in own_walk(callee.node)):
+                    counter[0] += 1
+                    body = [s for s in callee.node.body if not (isinstance(s, ast.Expr) and isinstance(s.value, ast.Constant)
+                                                                 and isinstance(s.value.value, str))]
+                    mapped = subst_params(body, dict(zip(callee.params, st.value.args)), f"__inl{counter[0]}")
+                    for m in mapped:
+                        ast.copy_location(m, st)
+                    out += expand(mapped, callee.module, d - 1)
+                    continue
+            for fld in ("body", "orelse", "finalbody"):
+                sub = getattr(st, fld, None)
+                if isinstance(sub, list) and sub and isinstance(sub[0], ast.stmt):
+                    setattr(st, fld, expand(sub, module, d))
+            if isinstance(st, ast.Try):
+                for h in st.handlers:
+                    h.body = expand(h.body, module, d)
+            out.append(st)
+        return out
+
+    node = copy.deepcopy(f.node)
+    node.body = expand(node.body, f.module, depth)
+    return ast.fix_missing_locations(node)
